@@ -13,7 +13,7 @@ _change_class, _simplify (state-changing).
 coq/Ext/SrcEqState.v proves that on a content that holds the per-key states of the model they compute what
 Ext.Model.change_class_k / simplify_k compute."""
 from astlib import *      # noqa: F401,F403
-from py2coq import Fn, translate_all, NAT, BOOL, STR, DYN, UNIT, OPAQUE, OBJ, LIST, OPT, PAIR, DICT, CNAME
+from py2coq import Fn, translate_all, NAT, BOOL, STR, DYN, UNIT, OPAQUE, OBJ, LIST, OPT, PAIR, DICT, CNAME, TOKEN
 
 WHAT = ("dcmmeta.DcmMetaExtension.get_classification, get_class_dict, get_values_and_class, _get_changed_class, _change_class, "
         "_simplify (state-passing translation by tools/tables/py2coq.py)")
@@ -24,6 +24,9 @@ ATTRS = [('classifications', LIST(CNAME)), ('shape', LIST(NAT)), ('slice_dim', O
          ('affine', OPAQUE), ('reorient_transform', OPAQUE),
          ('_preserving_changes', DICT(OPT(CNAME), LIST(CNAME))), ('_const_tests', DICT(OPT(CNAME), LIST(CNAME))),
          ('_repeat_tests', DICT(OPT(CNAME), LIST(CNAME)))]
+# the slice normal (a property: None without a slice dimension, else a row of the affine) is numeric data outside the translation:
+# a token, None-able, compared only by np.allclose
+ATTRS_N = ATTRS + [('slice_normal', OPT(TOKEN))]
 HDR = ['classifications', 'shape', 'n_slices']
 IMPORTS = {
     'self.get_valid_classes': dict(coq='get_valid_classes_src', attrs=['classifications', 'shape'], params=[], ret=LIST(CNAME)),
@@ -39,7 +42,7 @@ def specs():
     return [
         fn('get_classification_st', 'get_classification', OPT(CNAME), [('key', STR)]),
         fn('get_class_dict_st', 'get_class_dict', DYN, [('classification', CNAME)], alias_path=True),
-        fn('get_values_and_class_st', 'get_values_and_class', PAIR(DYN, OPT(CNAME)), [('key', STR)]),
+        fn('get_values_and_class_st', 'get_values_and_class', PAIR(DYN, OPT(CNAME)), [('key', STR)], returns_stored='pair'),
         fn('get_changed_class_st', '_get_changed_class', DYN, [('key', STR), ('new_class', CNAME), ('slice_dim', OPT(NAT))]),
         fn('change_class_st', '_change_class', UNIT, [('key', STR), ('new_class', CNAME)], mutates=True),
         # the period, for a source class that may still be None as far as the types know
@@ -55,6 +58,31 @@ def specs():
                            content='make_empty_content', content_args=['shape', 'slice_dim'],
                            content_sig='(list nat) -> (option nat) -> res jv',
                            derived={'n_slices': ('n_slices_src', ['shape', 'slice_dim'])})),
+        # stage D: the insertion of one key of `other` (two instances; lists of the state are extended in place)
+        fn('get_values_st', 'get_values', DYN, [('key', STR)], returns_stored='value'),
+        fn('get_changed_class_o', '_get_changed_class', DYN, [('key', STR), ('new_class', OPT(CNAME)), ('slice_dim', OPT(NAT))]),
+        fn('insert_slice_st', '_insert_slice', UNIT, [('key', STR), ('other', OBJ)], mutates=True, alias_vars=['local_vals']),
+        fn('insert_non_slice_st', '_insert_non_slice', UNIT, [('key', STR), ('other', OBJ)], mutates=True),
+        fn('insert_sample_st', '_insert_sample', UNIT, [('key', STR), ('other', OBJ), ('sample_base', STR)], mutates=True,
+           alias_vars=['local_vals']),
+        # _insert(dim, other): per-slice meta data of `other` is set aside and put back (its content is threaded, not returned)
+        fn('change_class_o', '_change_class', UNIT, [('key', STR), ('new_class', OPT(CNAME))], mutates=True),
+        fn('get_keys_st', 'get_keys', LIST(STR)),
+        Fn('insert_st', SRC, '_insert', UNIT, [('dim', NAT), ('other', OBJ)], cls=CLS, self_attrs=ATTRS_N, state='_content', imports=IMPORTS,
+           mutates=True, mutable_objs=['other'], local_dicts={'other_slc_meta': DICT(CNAME, DYN)}),
+        # from_sequence(klass, seq, dim, affine, slice_dim): a list of instances; the result is made by make_empty (content and slice
+        # normal token: parameters), the bookkeeping of affine / reorient_transform is numeric data outside the translation
+        Fn('from_sequence_st', SRC, 'from_sequence', DYN, [('seq', LIST(OBJ)), ('dim', NAT), ('affine', OPT(OPAQUE)), ('slice_dim', OPT(NAT))],
+           cls=CLS, self_attrs=ATTRS_N, state='_content', imports=IMPORTS, classmethod=True, while_fuel='dim + 1',
+           opaque_vars=['affine', 'reorient_transform'],
+           new_object=dict(src='self.make_empty(_0, _1, _2, _3)', attrs={'shape': 0, 'affine': 1, 'reorient_transform': 2, 'slice_dim': 3},
+                           content='make_empty_content', content_args=['shape', 'slice_dim'],
+                           content_sig='(list nat) -> (option nat) -> res jv',
+                           derived={'n_slices': ('n_slices_src', ['shape', 'slice_dim'])},
+                           derived_params={'slice_normal': ('make_empty_normal', ['slice_dim'], '(option nat) -> res (option nat)')},
+                           # result.shape = v goes through the property setter (checked on the source); the header entries of the
+                           # content (dcmmeta_shape ..) are not part of the translated state
+                           setters={'shape': dict(check='(3 <= len(value) < 6)', err='ValueError')})),
     ]
 
 
